@@ -261,6 +261,10 @@ func (u *Unmarshaler) fillSliceValue(slice reflect.Value, index int,
 	case string:
 		return setValue(baseKind, ithVal, v)
 	case map[string]any:
+		if ithVal.Kind() != reflect.Map {
+			return errTypeMismatch
+		}
+
 		return u.fillMap(ithVal.Type(), ithVal, value)
 	default:
 		// don't need to consider the difference between int, int8, int16, int32, int64,
